@@ -45,6 +45,34 @@ def build(v, suite, ops, rnd, tier, h, d):
                 ops.add(s["name"], "scan_range", key=key, to=tok, stop=2, meta={"cls": "scan_range/%s/%s" % (s["name"], name)}, **kw)
 
 
+    # histories on ONE handle: a stopped scan is the first visit of the pages, later stopped scans (other k) and the same
+    # k again follow while the page cache is warm -- a stop must leave nothing half-done behind
+    ng = 0
+    for s in suite:
+        if s["name"].startswith("P") and tier == "quick" and ng > 40:
+            continue
+        tdb = s["tdb"]
+        objs = [(tname, None, t["without_rowid"]) for tname, t in s["desc"]["tables"].items()]
+        objs += [(None, name, True) for name, is_table, kd, t, ix in index_objects(s) if not is_table]
+        for tname, iname, is_index in objs[: (12 if tier == "quick" else 1000)]:
+            root = tdb.root(tname or iname)
+            n = len(tdb.order[root])
+            if n < 4:
+                continue
+            for first in ((2, 1) if tier == "quick" else (1, 2, 3, n // 2)):
+                g = "stopseq%d" % ng
+                ng += 1
+                for stop in (first, min(n, first + 3), n, first, max(1, n - 1), 1):
+                    if tname and not is_index:
+                        k = ops.add(s["name"], "table_scan", obj=tname, stop=stop, meta={"cls": "table_scan/%s/%s/one-handle" % (s["name"], tname)})
+                    elif tname:
+                        k = ops.add(s["name"], "index_scan", obj=tname, stop=stop, meta={"cls": "index_scan/%s/%s/one-handle" % (s["name"], tname)})
+                    else:
+                        k = ops.add(s["name"], "index_scan", index=iname, stop=stop, meta={"cls": "index_scan/%s/%s/one-handle" % (s["name"], iname)})
+                    ops.items[k].update(group=g, conf=False)
+    v.cov["stop_sequences_on_one_handle"] = ng
+
+
 def run(tier):
     return bf.run_family("C17", tier, "stop", build, {"stop", "lock"},
                          "every scan kind (Table.Scan, Index.Scan, SelectDone, ScanMin, ScanEq, ScanRange) on every table / index of the "
